@@ -27,6 +27,7 @@ type Directive struct {
 	Ret      string // "", "nil", "err", "ok"
 	Line     int
 	Ord      int // ordinal among directives of the same kind in the block (1-based)
+	Only     []string // if set: the properties this clause counts for
 }
 
 type Block struct {
@@ -165,6 +166,13 @@ func ParseContractFile(path string) (*ContractFile, error) {
 			d.Kind, d.Expr = "requires", strings.TrimPrefix(text, "requires ")
 		case strings.HasPrefix(text, "ensures "):
 			d.Kind, d.Expr = "ensures", strings.TrimPrefix(text, "ensures ")
+			// "ensures @C19 expr": the clause counts only for the listed properties
+			if e := strings.TrimSpace(d.Expr); strings.HasPrefix(e, "@") {
+				if i := strings.IndexAny(e, " \t"); i > 0 {
+					d.Only = strings.Split(strings.TrimPrefix(e[:i], "@"), ",")
+					d.Expr = strings.TrimSpace(e[i:])
+				}
+			}
 		case strings.HasPrefix(text, "assume "):
 			d.Kind, d.Expr = "assume", strings.TrimPrefix(text, "assume ")
 		case text == "nopanic" || text == "nowrap" || text == "opaque" || text == "pure" || text == "trusted":
